@@ -7,7 +7,7 @@ from . import _difffam as FAM
 
 ID = 'C04'
 LEAN_TARGETS = ['Properties.C04']
-THEOREMS = ['Diff.C04_faithful', 'Diff.C04_set_items', 'Diff.C04_merged', 'Diff.C04_leaf_differs', 'Diff.C04_fold_present', 'Diff.C04_N_fold_equal']
+THEOREMS = ['Diff.C04_faithful', 'Diff.C04_set_items', 'Diff.C04_merged', 'Diff.C04_leaf_differs', 'Diff.C04_fold_present', 'Diff.C04_N_fold_equal', 'Diff.C04_merged_has_path', 'Diff.C04_pathless_kept']
 RULE = ('pairs of nested values; long flat lists of scalars edited by insert/delete/replace/move/duplicate so that both the difflib pass and the pairwise pass win on '
         'part of the sample (measured), x verbose_level in {1,2} x threshold_to_diff_deeper in {0,0.33,0.9}, default alignment; every entry of the text view is '
         'resolved with extract() against t1/t2; the full result is compared with the Lean model (own difflib port). distinct = distinct (t1, t2, verbose, thr); '
